@@ -107,6 +107,22 @@ func c04Rules(tier string) []Rule {
 			return rs
 		}},
 
+		// daemon overhead still expected on an existing / in-flight node counts exactly the daemons the node admits under
+		// strict semantics (an undefined custom label does not admit); a superset shrinks the node and opens new capacity
+		MPT{ID: "C04.MPT5", Fn: "(*sched.Scheduler).isDaemonPodCompatibleWithNode", Ret: core.RetTrue, Gates: gates(
+			G(`+^\(scheduling\.Taints\)\.ToleratesPod\(\$2, \$1\) == nil$`),
+			G(`+^\(scheduling\.Requirements\)\.Compatible\(scheduling\.NewLabelRequirements\(\$3\), scheduling\.NewStrictPodRequirements\(\$1\), nil\) == nil$`),
+		)},
+		DOM{ID: "C04.DOM5", Fn: "(*sched.Scheduler).getCompatibleDaemonPods", Sink: `^call append\(phi\(.*\), &local<\[1\]\*corev1\.Pod>\[:\]\)$`, Gates: gates(
+			G(`+^\(\*sched\.Scheduler\)\.isDaemonPodCompatibleWithNode\(\$0, \$4\[.*\], \$3, \(\*state\.StateNode\)\.Labels\(\$2\)\)$`),
+			G(`-^\(\*sched\.Scheduler\)\.shouldSkipDaemonPod\(\$0, \$4\[.*\]\)$`),
+		)},
+		core.Custom{ID: "C04.PROV4", Kind: "PROV", Run: func(w *core.World, id string) []core.Result {
+			rs := core.ArgProvenance(w, id, calc, `^call sched\.NewExistingNode\(`, 3, `^utils/resources\.RequestsForPods\(\(\*sched\.Scheduler\)\.getCompatibleDaemonPods\(\$0, \$2\[.*\], \(\*state\.StateNode\)\.Taints\(.*\), \$3\)\)$`, "expected daemon overhead = requests of the compatible daemons for this node's taints and labels")
+			rs = append(rs, core.InstrPresent(w, id, "PROV", "sched.NewExistingNode", `^call utils/resources\.SubtractFrom\(\$3, \(\*state\.StateNode\)\.DaemonSetRequests\(\$0\)\)$`, 1, "minus the daemons already running there")...)
+			return rs
+		}},
+
 		// ---- (4) the in-flight view
 		core.Custom{ID: "C04.VIEW1", Kind: "RET", Run: func(w *core.World, id string) []core.Result {
 			rs := core.RetLeavesGuarded(w, id, "RET", sn+"Taints", 0, `^lo\.Reject\[corev1\.Taint, \[\]corev1\.Taint\]\(.*, closure:\(\*state\.StateNode\)\.Taints\$1\)$`,
